@@ -25,7 +25,7 @@ for d in "$VERIF"/seeded/*${PAT}*/; do
   if (cd "$S/repo" && CARGO_TARGET_DIR="$S/target-repo" cargo test --workspace --no-fail-fast --offline >"$S/test.log" 2>&1); then
     base="pass($(grep -E '^test result: ok' "$S/test.log" | awk '{s+=$4} END{print s}'))"
   else base="FAIL"; fi
-  if ! (cd "$S/sim" && CARGO_TARGET_DIR="$S/target-sim" cargo build --release --offline >"$S/build.log" 2>&1); then
+  if ! (cd "$S/sim" && CARGO_TARGET_DIR="$S/target-sim" cargo build --release --offline >"$S/build.log" 2>&1 && CARGO_TARGET_DIR="$S/target-sim" cargo build --profile shipped --offline >>"$S/build.log" 2>&1); then
     printf "%s\t%s\t%s\t-\tbuild-failed\t0\t-\n" "$id" "$prop" "$base" | tee -a "$OUT"; miss=1; continue
   fi
   props="$prop"; [ "${ALL:-0}" = 1 ] && props="C04 C05 C06 C12 C17 C18"
